@@ -114,6 +114,55 @@ fn nested_entry_b(with_handler: bool, evaluation_fails: bool, handler_fails: boo
     assert!(matches!(t.stack[0], SteelVal::IntV(x) if x == a) && matches!(t.stack[1], SteelVal::IntV(x) if x == b));
 }
 
+/// function return: POPPURE (value on top of the operand stack) and the value-carrying form
+#[kani::proof]
+#[kani::unwind(24)]
+fn function_return_contract() {
+    reset();
+    let caller_code = body(3);
+    let callee_code = body(2);
+    let caller_fn = lambda(1, caller_code);
+    let callee_fn = lambda(2, callee_code);
+    let older: usize = kani::any();
+    kani::assume(older <= 5);
+    let vals: [isize; 5] = kani::any();
+    let fsp: usize = kani::any();
+    kani::assume(fsp >= 1 && fsp <= 3);
+    let rip: usize = kani::any();
+    kani::assume(rip < 1000);
+    let outermost: bool = kani::any();
+    let with_value: bool = kani::any();
+    let v: isize = kani::any();
+    let mut t = SteelThread {
+        stack: vec![SteelVal::IntV(vals[0]), SteelVal::IntV(vals[1]), SteelVal::IntV(vals[2]), SteelVal::IntV(vals[3]), SteelVal::IntV(vals[4])],
+        stack_frames: FrameStack { older, top: vec![frame(0, &caller_fn, None, 9, caller_code), frame(fsp, &callee_fn, None, rip, caller_code)] },
+    };
+    let ip0: usize = 1;
+    let mut vm = VmCore { is_native: false, ip: ip0, sp: fsp, thread: &mut t, instructions: callee_code, pop_count: if outermost { 1 } else { 2 }, depth: 0, result: None, ghost_slow_calls: 0 };
+    let r = if with_value { vm.handle_pop_pure_value(SteelVal::IntV(v)) } else { vm.handle_pop_pure() };
+    let want = if with_value { v } else { vals[4] };
+    let (ip1, sp1, pc1, same_code) = (vm.ip, vm.sp, vm.pop_count, vm.instructions.same(&caller_code));
+    drop(vm);
+    assert!(t.stack_frames.len() == older + 1, "a return removes exactly one frame");
+    assert!(unsafe { MARKS_CLOSED } == 1);
+    if outermost {
+        assert!(matches!(r, Some(Ok(SteelVal::IntV(x))) if x == want), "the value handed back is not the function's value");
+        assert!(t.stack.len() == fsp && ip1 == ip0 + 1 && sp1 == 0 && pc1 == 0);
+    } else {
+        assert!(r.is_none());
+        assert!(pc1 == 1);
+        assert!(t.stack.len() == fsp + 1, "the callee's locals and temporaries are not removed (or more than them)");
+        assert!(matches!(t.stack[fsp], SteelVal::IntV(x) if x == want), "the return value is not what the caller finds on top");
+        assert!(ip1 == rip && same_code, "the caller is not resumed where it made the call");
+        assert!(sp1 == 0, "the frame pointer is not the caller's");
+    }
+    let mut i = 0;
+    while i < fsp {
+        assert!(matches!(t.stack[i], SteelVal::IntV(x) if x == vals[i]), "a return touched the caller's part of the operand stack");
+        i += 1;
+    }
+}
+
 #[kani::proof]
 #[kani::unwind(8)]
 fn nested_entry_success_contract() {
